@@ -18,7 +18,18 @@ def F(name, header, csig, rules=(), scope=None, **kw):
 
 
 ASSOC = r'associativity a = associativity::no_assoc'
-BASE = Call(r'VX_INIT__term', 'term__ctor(&self->base, {args})', name='R19:base-class initializer term(..)')
+def _padded(target, first, defaults):
+    """constructor call with fewer arguments than parameters: the missing ones are the default arguments of the real declaration
+    (grabbed from the header text as macros)"""
+    def repl(m, parts):
+        n = len(defaults)             # defaults[k] is the default of parameter k (None: no default)
+        if len(parts) > n or any(defaults[k] is None for k in range(len(parts), n)):
+            raise Exception('constructor call %r does not fit the declaration' % m.group(0))
+        return '%s(%s)' % (target, ', '.join([first] + parts + [defaults[k] for k in range(len(parts), n)]))
+    return repl
+
+
+BASE = Call(r'VX_INIT__term', _padded('term__ctor', '&self->base', ['VX_TERM_DEF_PREC', 'VX_TERM_DEF_ASSOC']), name='R19:base-class initializer term(..) (default arguments from the declaration)')
 MEMB = Call(r'VX_INIT__(\w+)', 'self->{m1} = ({args})', min=0, name='R19:member initializer m(e)')
 SEQ = S(r'std::make_index_sequence<([^>]+)>\{\}', r'(\1)', name='R18:index_sequence<K> -> K')
 COPY = Call(r'utils::copy_array', 'vx_copy_array({args})', name='R18:copy_array')
@@ -74,7 +85,7 @@ F('custom_term__get_name', r'constexpr const char\* get_name\(\)', 'const char* 
 F('custom_term__get_id', r'constexpr const char\* get_id\(\)', 'const char* custom_term__get_id(const struct custom_term* self)', [S(r'\bget_name\(\)', 'custom_term__get_name(self)')], CU)
 F('custom_term__get_ftor', r'constexpr const ftor_type& get_ftor\(\)', 'const int* custom_term__get_ftor(const struct custom_term* self)', [S(r'return ftor;', 'return &self->ftor;', name='R5:reference result')], CU)
 # ---- regex_term<Pattern>
-DELEG = Call(r'VX_INIT__regex_term', 'regex_term__ctor(self, {args})', name='R19:delegating constructor')
+DELEG = Call(r'VX_INIT__regex_term', _padded('regex_term__ctor', 'self', [None, 'VX_RT_DEF_PREC', 'VX_RT_DEF_ASSOC']), name='R19:delegating constructor (default arguments from the declaration)')
 F('regex_term__ctor', r'constexpr regex_term\(const char \*custom_name, int precedence = 0, ' + ASSOC + r'\)',
   'void regex_term__ctor(struct regex_term* self, const char* custom_name, int precedence, int a)',
   [BASE, MEMB, SEQ, COPY, S(r'\bPattern\b', 'P_Pattern', name='R9:Pattern'), S(r'\bpattern_size\b', 'P_PS', name='R9:pattern_size'), member('id', min=3), Bound(r'self->id', ['P_PS + 2'])], RT, ctor=True)
@@ -115,7 +126,10 @@ __CPROVER_requires(n <= 64 && __CPROVER_w_ok(a1, n) && __CPROVER_r_ok(a2, n) && 
 __CPROVER_assigns(__CPROVER_object_upto(a1, n))
 __CPROVER_ensures(g_k < n ==> a1[g_k] == a2[g_k]);
 '''
-UNIT = Unit('terms', PRELUDE, fns, consts=[('VX_NAME_SIZE', r'const static size_t name_size = (\d+);', None)])
+UNIT = Unit('terms', PRELUDE, fns, consts=[('VX_NAME_SIZE', r'const static size_t name_size = (\d+);', None),
+    ('VX_TERM_DEF_PREC', r'constexpr term\(int precedence = ([^,]+), associativity a = [^)]+\)', None), ('VX_TERM_DEF_ASSOC', r'constexpr term\(int precedence = [^,]+, associativity a = ([^)]+)\)', None),
+    ('VX_RT_DEF_PREC', r'constexpr regex_term\(const char \*custom_name, int precedence = ([^,]+), associativity a = [^)]+\)', None),
+    ('VX_RT_DEF_ASSOC', r'constexpr regex_term\(const char \*custom_name, int precedence = [^,]+, associativity a = ([^)]+)\)', None)])
 UNIT.enums = [PC.ENUMS[1]]
 UNIT.facts = [r'constexpr void copy_array\(T \*a1, const T\* a2, std::index_sequence<I\.\.\.>\)\s*\{\s*\(void\(a1\[I\] = a2\[I\]\), \.\.\.\);\s*\}',
               r'protected:\s*int precedence;\s*associativity ass;\s*\};', r'private:\s*char c;\s*char id\[utils::char_names::name_size\] = \{\};',
